@@ -284,6 +284,46 @@ impl Engine for C03 {
                 }
             }
         }
+        // one line of the written text one tab too deep (a first child, or the first line after the header): not a
+        // well-formed text, so a refusal is fine; but an Ok has to carry everything the OTHER lines say - never a
+        // silently shortened set (missed seeded change C03-18: too deeply indented lines skipped without a word)
+        if (p.order_a ^ p.order_b) % 8 == 3 {
+            let lines: Vec<&[u8]> = t0.split_inclusive(|b| *b == b'\n').collect();
+            let depth = |l: &[u8]| l.iter().take_while(|b| **b == b'\t').count();
+            if lines.len() >= 2 {
+                let start = 1 + ((p.order_b >> 7) % (lines.len() as u64 - 1)) as usize;
+                let at = (start..lines.len()).chain(1..start).find(|&i| i == 1 || depth(lines[i - 1]) < depth(lines[i])).unwrap_or(1);
+                let d_at = depth(lines[at]);
+                let (mut damaged, mut rest, mut skipping) = (vec![], vec![], false);
+                for (i, l) in lines.iter().enumerate() {
+                    if i == at {
+                        damaged.push(b'\t');
+                        damaged.extend_from_slice(l);
+                        skipping = true;
+                        continue;
+                    }
+                    damaged.extend_from_slice(l);
+                    if skipping && depth(l) > d_at {
+                        continue;
+                    }
+                    skipping = false;
+                    rest.extend_from_slice(l);
+                }
+                st.probe("over_indented_line");
+                st.tier("T2");
+                match no_panic(|| with_n!(n, read_real(&damaged[..]))) {
+                    Err(pm) => out.push(Violation::new("T2", "panic", format!("read:{}", panic_path(&pm)), pm)),
+                    Ok(Err(_)) => st.probe("over_indented_line.refused"),
+                    Ok(Ok(got)) => {
+                        if let Ok(want) = read_tiny(&rest, n) {
+                            if let Some(m) = want.missing_in(&got) {
+                                out.push(Violation::new("T2", "reader-ok-with-lost-entries", "read.over-indented-line", format!("line {} is one tab too deep; read returned Ok without what the OTHER lines say: {m}", at + 1)));
+                            }
+                        }
+                    }
+                }
+            }
+        }
         // fixed point
         match no_panic(|| with_n!(n, rewrite_real(&t0))) {
             Ok(Ok(t1)) => {
